@@ -1245,11 +1245,78 @@ def explain_empty_by(ctx, case, r, s, freq, ds, kw, observed):
     except Exception as ex:
         case["model_agrees_with_implementation"] = False; case["matcher_error"] = repr(ex)
 
+def oracle_fold_space(ctx):
+    """folds of a DTSTART;TZID=<name with spaces> line at every kind of position, in particular right after a space: in the
+    first physical line (must work: unfold_fold) and in a continuation line (known finding D-C13-fold-after-space)"""
+    from dateutil import rrule as R
+    rng = ctx.subrng("oracle-foldspace")
+    for _ in range(ctx.budget(60, 1500)):
+        if ctx.escalated and ctx.unknown_violations() >= 5:
+            break
+        freq, ds, kw = gen_kwargs(rng, small_years=False)
+        kw = {a: v for a, v in kw.items() if not (isinstance(v, (tuple, list)) and len(v) == 0)}
+        name = rng.choice(["Eastern Standard Time", "a b", "A  B c", "W. Europe Standard Time", "x y z"])
+        try:
+            r = build(freq, ds, kw)
+            s = str(r)
+            want = head(iter(build(freq, ds.replace(tzinfo=MarkTz(name)), kw)))
+        except (ValueError, Timeout, ZeroDivisionError, OverflowError, IndexError, TypeError):
+            continue
+        first, rest = s.split("\n", 1)
+        logical = "DTSTART;TZID=%s:%s" % (name, first.split(":", 1)[1])
+        after_space = [i + 1 for i, c in enumerate(logical) if c == " " and i + 1 < len(logical)]
+        cuts = set(rng.sample(range(1, len(logical)), rng.randint(0, 3)))
+        if rng.random() < 0.8:
+            cuts.update(rng.sample(after_space, rng.randint(1, min(2, len(after_space)))))
+        pieces, prev = [], 0
+        for k in sorted(cuts):
+            pieces.append(logical[prev:k]); prev = k
+        pieces.append(logical[prev:])
+        if not pieces[0].strip() or any(not p.strip() for p in pieces[1:]):
+            continue                                   # whitespace-only pieces: a different question (blank lines are dropped)
+        brk = rng.choice(["\n", "\r\n"])
+        text = pieces[0] + "".join(brk + " " + p for p in pieces[1:]) + brk + rest
+        lost = any(p.endswith(" ") for p in pieces[1:])
+        case = {"kind": "fold-space", "text": text, "tzid": name, "continuation_piece_ends_in_space": lost,
+                "kwargs": repr(kw), "freq": freq, "dtstart": ds.isoformat()}
+        ctx.case((text, "fold-space")); ctx.count("fold_space_lost" if lost else "fold_space_kept")
+        def run(t):
+            try:
+                with warnings.catch_warnings():
+                    warnings.simplefilter("ignore")
+                    got = head(iter(R.rrulestr(t, unfold=True, tzids=mark_tz)))
+                return [(d.replace(tzinfo=None), getattr(d.tzinfo, "looked_up", d.tzinfo)) for d in got]
+            except Timeout:
+                raise
+            except Exception as ex:
+                return "raised " + exc_kind(ex)
+        try:
+            got = run(text)
+            if got != [(d.replace(tzinfo=None), name) for d in want]:
+                if lost:
+                    # the symptom the finding describes: the TZID parameter is no longer found in the name table, the zone is
+                    # silently dropped (naive start, same wall-clock occurrences) — and the Lean model says the same of this text
+                    case["explained_by_dropped_zone"] = bool(got == [(d.replace(tzinfo=None), None) for d in want])
+                    try:
+                        with relaxed():
+                            res, _ = impl_parse(text, unfold=True, tzids=mark_tz)
+                            m = ctx.driver(["rrs.parse 1000000 %s" % hexs(text)])
+                            case["model_agrees_with_implementation"] = bool(canon_impl(res, m[0]) == m[0])
+                    except Timeout:
+                        ctx.count("skipped_explanation_timed_out"); continue
+                    except Exception as ex:
+                        case["model_agrees_with_implementation"] = False; case["matcher_error"] = repr(ex)
+                ctx.violation("a folded DTSTART;TZID line does not give the start and zone of the keyword construction", case,
+                              {"got": repr(got)[:300]})
+        except Timeout:
+            ctx.count("skipped_ctor_or_slow")
+
 def oracle(ctx):
     from dateutil import rrule as R, tz
     # the cheap sections first, so that the failing-input search after a correspondence mismatch reaches them early
     oracle_fresh(ctx)
     oracle_ambient(ctx)
+    oracle_fold_space(ctx)
     oracle_options(ctx)
     oracle_sets(ctx)
     oracle_malformed(ctx)
@@ -1360,7 +1427,14 @@ def empty_by_list(case):
             and case.get("model_agrees_with_implementation") is True
             and case.get("explained_by_default_of_dropped_part") is True)
 
-KNOWN = {"D-C13-empty-by-list": lambda v: empty_by_list(v["case"])}
+def fold_after_space(case):
+    """D-C13-fold-after-space, tight: a continuation piece of the folded DTSTART;TZID line ends in a space the outcome is
+    exactly the keyword construction with the zone dropped (naive start), AND the Lean model says the same of this very text"""
+    return (case.get("kind") == "fold-space" and case.get("continuation_piece_ends_in_space") is True
+            and case.get("explained_by_dropped_zone") is True and case.get("model_agrees_with_implementation") is True)
+
+KNOWN = {"D-C13-empty-by-list": lambda v: empty_by_list(v["case"]),
+         "D-C13-fold-after-space": lambda v: fold_after_space(v["case"])}
 
 def replay_ambient(case):
     """an ambient-first-weekday case re-evaluated on the current tree"""
